@@ -14,7 +14,7 @@ from harness.common import drv, errclass
 
 PID = "C14"
 THEOREMS = ["processSlice_spec", "processScalar_spec", "slice_rows", "tableGet_part", "selector_slice_rows",
-            "selector_scalar_row", "column_selection_commutes", "column_selection_commutes_one",
+            "selector_scalar_row", "selector_slice_labels", "column_selection_commutes", "column_selection_commutes_one",
             "annotate_correct", "annotateSpec_ok", "annotate_selector_correct", "annotate_forms_agree",
             "annotate_empty", "pixels_join_slice", "chrom_decode_agree", "chrom_decode_agree_frames",
             "legacy_substring_rule_violates"]
